@@ -81,6 +81,9 @@ pub fn cmd_extra(args: &[String]) {
         "eqs" => eqs(&mut rep, seed, scale),
         "hb" => hb(&mut rep, seed, scale),
         "zsh" => zsh(&mut rep, seed, scale),
+        "iters" => iters(&mut rep, seed, scale),
+        "oom" => oom(&mut rep, seed, scale),
+        "oomchild" => oom_child(args),
         _ => {
             eprintln!("unknown extra slice {which}");
             std::process::exit(2);
@@ -392,6 +395,8 @@ fn sets(rep: &mut Report, seed: u64, scale: u64) {
         let mut tlines: Vec<String> = vec![];
         let r = catch_unwind(AssertUnwindSafe(|| {
             let mut problems: Vec<String> = vec![];
+            #[allow(unused_assignments)]
+            let mut c03 = false;
             let chk = |name: &str, got: Vec<u64>, want: Vec<u64>, problems: &mut Vec<String>| {
                 let mut g2 = got.clone();
                 g2.sort_unstable();
@@ -435,6 +440,19 @@ fn sets(rep: &mut Report, seed: u64, scale: u64) {
                 drop(df);
                 if first.is_some() != !want.is_empty() || c4.iter().any(|k| k.k() % 3 == 0) || c4.len() != rc4.len() - want.len() {
                     problems.push("drain_filter (set): dropped early, matching elements remain / wrong length".into());
+                }
+            }
+            // a set against ITSELF (the same object on both sides): the mathematical answers, also for the empty set
+            for (name, set, r) in [("a", &a, &ra), ("b", &b, &rb)] {
+                let n = r.len();
+                let sorted = |v: Vec<u64>| -> Vec<u64> { let mut v = v; v.sort_unstable(); v };
+                let all: Vec<u64> = r.iter().copied().collect();
+                if sorted(set.union(set).map(|k| k.k()).collect()) != all || sorted(set.intersection(set).map(|k| k.k()).collect()) != all
+                    || set.difference(set).count() != 0 || set.symmetric_difference(set).count() != 0 {
+                    problems.push(format!("{name} op {name}: union / intersection / difference / symmetric_difference of a set with itself"));
+                }
+                if !set.is_subset(set) || !set.is_superset(set) || !(set == set) || set.is_disjoint(set) != (n == 0) {
+                    problems.push(format!("{name} vs itself ({n} elements): is_subset {} is_superset {} == {} is_disjoint {}", set.is_subset(set), set.is_superset(set), set == set, set.is_disjoint(set)));
                 }
             }
             // the same adaptors, in lock-step with `GriddleModel/Set.lean`: what they yield, in order, as a function of
@@ -577,6 +595,31 @@ fn sets(rep: &mut Report, seed: u64, scale: u64) {
                     8 => {
                         if a.contains(&Q(k)) != ra.contains(&k) { problems.push(format!("contains {k}")); }
                     }
+                    9 if a.verif_state().old.is_some() && g.chance(1, 3) => {
+                        // take the parked elements out one by one, by value (`remove` or `take`, in lock-step): the call that
+                        // takes the last one releases the old table
+                        let mut ok = vec![];
+                        a.verif_old_keys(usize::MAX, |x| ok.push(x.k()));
+                        let by_take = g.chance(1, 2);
+                        for kk in ok {
+                            let before2: BTreeMap<u64, u64> = a.iter().map(|x| (x.k(), x.id)).collect();
+                            if by_take {
+                                let mut cr = windowed(|| a.take(&Q(kk)));
+                                let got = cr.r.as_ref().ok().and_then(|x| x.as_ref()).map(|x| x.id);
+                                tlines.push(set_line(format!("stake 0 {kk}"), &a, &before2, true, got.map_or("-".to_string(), |x| x.to_string()), cr.dh, cr.da, cr.df, &mut cr.dropped));
+                            } else {
+                                let mut cr = windowed(|| a.remove(&Q(kk)));
+                                let got = cr.r.clone().unwrap_or(false);
+                                tlines.push(set_line(format!("sremove 0 {kk}"), &a, &before2, true, (got as u8).to_string(), cr.dh, cr.da, cr.df, &mut cr.dropped));
+                            }
+                            ra.remove(&kk);
+                        }
+                        if let Some((0, ..)) = a.verif_state().old {
+                            problems.push(format!("{} took the last element out of the old table but the table is still allocated", if by_take { "take" } else { "remove" }));
+                            c03 = true;
+                            let _ = c03;
+                        }
+                    }
                     9 => {
                         if a.verif_state().old.is_some() && g.chance(1, 2) {
                             // reject exactly what is still in the old table (emptied in place), then fill up
@@ -657,6 +700,9 @@ fn sets(rep: &mut Report, seed: u64, scale: u64) {
             Err(_) => vec![format!("panic: {}", LAST_PANIC.with(|p| p.borrow().lines().last().unwrap_or("").to_string()))],
         };
         let an = take_anomalies();
+        if problems.iter().any(|p| p.contains("but the table is still allocated")) {
+            rep.fail("C03", problems.join("; "), log.join("\n"));
+        }
         if !problems.is_empty() || !an.is_empty() {
             rep.fail("C13", format!("{} {}", problems.join("; "), an.join("; ")), log.join("\n"));
             if problems.iter().any(|p| p.starts_with("clone")) {
@@ -870,6 +916,22 @@ fn par(rep: &mut Report, seed: u64, scale: u64) {
                     if f1 != f2 {
                         problems.push("from_par_iter differs from from_iter".into());
                     }
+                    // the same object on both sides, and values that are not equal to themselves (`par_eq` asks for
+                    // `V: PartialEq` only): the parallel predicates answer what the sequential ones answer
+                    {
+                        if pool.install(|| m.par_eq(&m)) != (m == m) {
+                            problems.push("par_eq of a map with itself".into());
+                        }
+                        let mut nan: HashMap<u64, f64, VBuild> = HashMap::with_hasher(VBuild { kind: hk, seed: 5 });
+                        for (i, k) in seq.keys().enumerate() {
+                            nan.insert(*k, if i == 0 { f64::NAN } else { i as f64 });
+                        }
+                        if split { nan.reserve(nan.len() + 9); }
+                        let nc = nan.clone();
+                        if pool.install(|| nan.par_eq(&nan)) != (nan == nan) || pool.install(|| nan.par_eq(&nc)) != (nan == nc) {
+                            problems.push(format!("par_eq on a map holding a NaN: with itself {} (== says {}), with its clone {} (== says {})", pool.install(|| nan.par_eq(&nan)), nan == nan, pool.install(|| nan.par_eq(&nc)), nan == nc));
+                        }
+                    }
                     // par_eq
                     let mut other = m.clone();
                     if pool.install(|| m.par_eq(&other)) != (m == other) {
@@ -960,6 +1022,25 @@ fn par(rep: &mut Report, seed: u64, scale: u64) {
                     }
                     if pool.install(|| sa.par_eq(&sb)) != (sa == sb) {
                         problems.push("set par_eq".into());
+                    }
+                    // a set against itself — the same object —, non-empty and empty (fresh, cleared, emptied in place by retain)
+                    let mut empties: Vec<PS> = vec![PS::with_hasher(VBuild { kind: hk, seed: 3 })];
+                    let mut e1 = sa.clone();
+                    e1.clear();
+                    empties.push(e1);
+                    let mut e2 = sa.clone();
+                    e2.reserve(sa.len() + 30);
+                    e2.retain(|_| false);
+                    empties.push(e2);
+                    for (i, x) in std::iter::once(&sa).chain(empties.iter()).enumerate() {
+                        let par = pool.install(|| (x.par_is_disjoint(x), x.par_is_subset(x), x.par_is_superset(x), x.par_eq(x)));
+                        let sq = (x.is_disjoint(x), x.is_subset(x), x.is_superset(x), x == x);
+                        let pu: Vec<u64> = pool.install(|| x.par_union(x).copied().collect());
+                        let pd: Vec<u64> = pool.install(|| x.par_difference(x).copied().collect());
+                        let px: Vec<u64> = pool.install(|| x.par_symmetric_difference(x).copied().collect());
+                        if par != sq || sq != (x.is_empty(), true, true, true) || pu.len() != x.len() || !pd.is_empty() || !px.is_empty() {
+                            problems.push(format!("a set ({} elements, case {i}) against itself: parallel (disjoint, subset, superset, eq) = {par:?}, sequential = {sq:?}", x.len()));
+                        }
                     }
                 }));
                 rep.evaluations += 1;
@@ -2325,4 +2406,255 @@ fn zsh_run<S: std::hash::BuildHasher + Clone + Default>(rep: &mut Report, label:
 fn zsh(rep: &mut Report, seed: u64, scale: u64) {
     zsh_run::<ZB>(rep, "BuildHasherDefault (zero-sized)", seed, 600 * scale);
     zsh_run::<griddle::hash_map::DefaultHashBuilder>(rep, "griddle's DefaultHashBuilder", seed, 400 * scale);
+}
+
+// ------------------------------------------------------------------------------------------------
+// Iterator laws.  An iterator is more than `next()`: `nth`, `skip`, `step_by`, `fold`, `for_each`, `count`, `last`,
+// `min` / `max`, `size_hint` / `len` may each be overridden by an adaptor, and each must behave like the default
+// built on `next()`: consume what it says, leave the rest, report exhaustion only when exhausted.  `mk` builds the
+// iterator afresh in the same state every time, so the sequence of a first pass is the reference for every other use.
+fn iter_laws<T, I>(name: &str, mk: &dyn Fn() -> I, exact: bool, problems: &mut Vec<String>)
+where
+    T: PartialEq + Clone + std::fmt::Debug + Ord,
+    I: Iterator<Item = T>,
+{
+    let seq: Vec<T> = mk().collect();
+    let n = seq.len();
+    let again: Vec<T> = mk().collect();
+    if again != seq {
+        problems.push(format!("{name}: two passes over the same state yield different sequences"));
+        return;
+    }
+    let mut ks: Vec<usize> = vec![0, 1, n / 2, n.saturating_sub(1), n, n + 1];
+    ks.dedup();
+    for &k in &ks {
+        // advance k times with next()
+        let adv = |it: &mut I| {
+            for i in 0..k {
+                let x = it.next();
+                if x.as_ref() != seq.get(i) {
+                    return false;
+                }
+            }
+            true
+        };
+        let rest: &[T] = if k <= n { &seq[k..] } else { &[] };
+        let mut bad = |what: String| {
+            if problems.len() < 6 {
+                problems.push(format!("{name}, after {k} of {n} next(): {what}"));
+            }
+        };
+        {
+            let mut it = mk();
+            if !adv(&mut it) { bad("next() differs from the first pass".into()); continue; }
+            let h = it.size_hint();
+            if exact && h != (rest.len(), Some(rest.len())) { bad(format!("size_hint() = {h:?}, {} to come", rest.len())); }
+            if !exact && (h.0 > rest.len() || h.1.map_or(false, |x| x < rest.len())) { bad(format!("size_hint() = {h:?} does not bracket {}", rest.len())); }
+            let got: Vec<T> = it.fold(vec![], |mut v, x| { v.push(x); v });
+            if got != rest { bad(format!("fold yields {} elements, {} to come", got.len(), rest.len())); }
+        }
+        {
+            let mut it = mk();
+            adv(&mut it);
+            let mut got = vec![];
+            it.for_each(|x| got.push(x));
+            if got != rest { bad(format!("for_each yields {} elements, {} to come", got.len(), rest.len())); }
+        }
+        {
+            let mut it = mk();
+            adv(&mut it);
+            if it.count() != rest.len() { bad("count()".into()); }
+            let mut it = mk();
+            adv(&mut it);
+            if it.last().as_ref() != rest.last() { bad("last()".into()); }
+            let mut it = mk();
+            adv(&mut it);
+            if it.max().as_ref() != rest.iter().max() { bad("max()".into()); }
+            let mut it = mk();
+            adv(&mut it);
+            if it.min().as_ref() != rest.iter().min() { bad("min()".into()); }
+        }
+        for j in [0usize, 1, rest.len() / 2, rest.len().saturating_sub(1), rest.len(), rest.len() + 2] {
+            let mut it = mk();
+            adv(&mut it);
+            let x = it.nth(j);
+            if x.as_ref() != rest.get(j) { bad(format!("nth({j}) returned {:?}", x.is_some())); }
+            let left: &[T] = if j + 1 <= rest.len() { &rest[j + 1..] } else { &[] };
+            let h = it.size_hint();
+            if exact && h != (left.len(), Some(left.len())) { bad(format!("after nth({j}) size_hint() = {h:?}, {} to come", left.len())); }
+            let got: Vec<T> = it.by_ref().collect();
+            if got != left { bad(format!("after nth({j}) {} elements follow, expected {}", got.len(), left.len())); }
+            if it.next().is_some() { bad(format!("after nth({j}) and exhaustion next() is Some")); }
+            let mut it = mk();
+            adv(&mut it);
+            let got: Vec<T> = it.skip(j).collect();
+            let want: &[T] = if j <= rest.len() { &rest[j..] } else { &[] };
+            if got != want { bad(format!("skip({j})")); }
+            if j > 0 {
+                let mut it = mk();
+                adv(&mut it);
+                let got: Vec<T> = it.step_by(j).collect();
+                let want: Vec<T> = rest.iter().step_by(j).cloned().collect();
+                if got != want { bad(format!("step_by({j})")); }
+            }
+            let mut it = mk();
+            adv(&mut it);
+            let got: Vec<T> = it.by_ref().take(j).collect();
+            let want: &[T] = &rest[..j.min(rest.len())];
+            let after: Vec<T> = it.collect();
+            let wafter: &[T] = &rest[j.min(rest.len())..];
+            if got != want || after != wafter { bad(format!("by_ref().take({j}) then the rest")); }
+        }
+    }
+}
+
+fn iters(rep: &mut Report, seed: u64, scale: u64) {
+    type PM = HashMap<u64, u64, VBuild>;
+    type PS = HashSet<u64, VBuild>;
+    let rounds = 60 * scale;
+    for round in 0..rounds {
+        let mut g = Rng::new(seed.wrapping_mul(31_337).wrapping_add(round));
+        let hk = *g.pick(&[HKind::Mul, HKind::Low, HKind::Id]);
+        let mut log: Vec<String> = vec![];
+        // a map / two sets in a phase: plain, split by insertion, everything parked, old table partly or wholly emptied
+        let mkmap = |g: &mut Rng, log: &mut Vec<String>| -> PM {
+            let mut m = PM::with_hasher(VBuild { kind: hk, seed: g.below(50) });
+            let n = *g.pick(&[0u64, 1, 3, 7, 14, 15, 17, 28, 29, 31, 40, 57, 60]);
+            for i in 0..n { m.insert(i * 3 + g.below(2), i); }
+            log.push(format!("{n} inserts"));
+            match g.below(5) {
+                0 => { m.reserve(m.len() * 2 + 9); log.push("reserve".into()); }
+                1 => {
+                    let mut ok = vec![];
+                    m.verif_old_keys(usize::MAX, |k| ok.push(*k));
+                    m.retain(|k, _| !ok.contains(k));
+                    log.push("retain away the parked elements".into());
+                }
+                2 => {
+                    let ks: Vec<u64> = m.keys().copied().filter(|k| k % 4 == 0).collect();
+                    for k in ks { m.remove(&k); }
+                    log.push("remove k % 4 == 0".into());
+                }
+                _ => {}
+            }
+            m
+        };
+        let m = mkmap(&mut g, &mut log);
+        let a: PS = { let mm = mkmap(&mut g, &mut log); let mut s = PS::with_hasher(VBuild { kind: hk, seed: 7 }); for k in mm.keys() { s.insert(*k); } if mm.verif_state().old.is_some() { s.reserve(s.len() + 20); } s };
+        let b: PS = { let mm = mkmap(&mut g, &mut log); let mut s = PS::with_hasher(VBuild { kind: hk, seed: 8 }); for k in mm.keys() { s.insert(*k / 2 * 3); } s };
+        rep.tuples.insert(format!("split {} {} {} sizes {} {} {}", m.verif_state().old.is_some(), a.verif_state().old.is_some(), b.verif_state().old.is_some(), m.len().min(2), a.len().min(2), b.len().min(2)));
+        let res = catch_unwind(AssertUnwindSafe(|| {
+            let mut p8: Vec<String> = vec![];
+            let mut p13: Vec<String> = vec![];
+            iter_laws("HashMap::iter", &|| m.iter().map(|(k, v)| (*k, *v)), true, &mut p8);
+            iter_laws("HashMap::keys", &|| m.keys().copied(), true, &mut p8);
+            iter_laws("HashMap::values", &|| m.values().copied(), true, &mut p8);
+            iter_laws("&HashMap into_iter", &|| (&m).into_iter().map(|(k, v)| (*k, *v)), true, &mut p8);
+            iter_laws("HashMap::into_iter (of a clone)", &|| m.clone().into_iter(), true, &mut p8);
+            iter_laws("HashMap::iter().clone()", &|| { let it = m.iter(); let c = it.clone(); drop(it); c.map(|(k, v)| (*k, *v)) }, true, &mut p8);
+            iter_laws("HashSet::iter", &|| a.iter().copied(), true, &mut p8);
+            iter_laws("HashSet::into_iter (of a clone)", &|| a.clone().into_iter(), true, &mut p8);
+            iter_laws("union", &|| a.union(&b).copied(), false, &mut p13);
+            iter_laws("intersection", &|| a.intersection(&b).copied(), false, &mut p13);
+            iter_laws("difference", &|| a.difference(&b).copied(), false, &mut p13);
+            iter_laws("symmetric_difference", &|| a.symmetric_difference(&b).copied(), false, &mut p13);
+            iter_laws("symmetric_difference (swapped)", &|| b.symmetric_difference(&a).copied(), false, &mut p13);
+            iter_laws("union (with itself)", &|| a.union(&a).copied(), false, &mut p13);
+            iter_laws("symmetric_difference (with itself)", &|| a.symmetric_difference(&a).copied(), false, &mut p13);
+            // consuming / mutable iterators: one pass each through the operations that matter, against the first pass
+            {
+                let seq: Vec<(u64, u64)> = m.clone().drain().collect();
+                for j in [0usize, 1, seq.len() / 2, seq.len(), seq.len() + 1] {
+                    let mut c = m.clone();
+                    let mut d = c.drain();
+                    let x = d.nth(j);
+                    let left = seq.len().saturating_sub(j + 1);
+                    if x.as_ref() != seq.get(j) || d.len() != left || d.size_hint() != (left, Some(left)) { p8.push(format!("drain: nth({j}) of {}", seq.len())); }
+                    let restc = d.count();
+                    if restc != left { p8.push(format!("drain: count() after nth({j})")); }
+                    if !c.is_empty() { p8.push("map not empty after drain".into()); }
+                    let mut c2 = m.clone();
+                    let want: Vec<(u64, u64)> = c2.iter().skip(j).map(|(k, v)| (*k, *v)).collect();
+                    let got: Vec<(u64, u64)> = c2.iter_mut().skip(j).map(|(k, v)| (*k, *v)).collect();
+                    if got != want { p8.push(format!("iter_mut().skip({j})")); }
+                    let mut c3 = m.clone();
+                    let wanty = c3.values().nth(j).copied();
+                    let mut im = c3.values_mut();
+                    let y = im.nth(j).map(|v| *v);
+                    if y != wanty || im.len() != left { p8.push(format!("values_mut: nth({j})")); }
+                }
+            }
+            (p8, p13)
+        }));
+        rep.evaluations += 1;
+        let (p8, p13) = match res {
+            Ok(x) => x,
+            Err(_) => (vec![format!("panicked: {}", LAST_PANIC.with(|p| p.borrow().lines().last().unwrap_or("").to_string()))], vec![]),
+        };
+        if !p8.is_empty() { rep.fail("C08", p8.join("; "), log.join("\n")); }
+        if !p13.is_empty() { rep.fail("C13", p13.join("; "), log.join("\n")); rep.fail("C08", p13.join("; "), log.join("\n")); }
+        if rep.samples.is_empty() { rep.samples.push(log.join(" ; ")); }
+    }
+}
+
+// ------------------------------------------------------------------------------------------------
+// Infallible requests the allocator refuses.  `reserve` / `with_capacity` / `extend` have no error to return: when the
+// allocation fails they must not come back (hashbrown calls `handle_alloc_error`, the process aborts).  Coming back
+// normally without the room is the one outcome C10 forbids, and it cannot be told from "did not return" in-process:
+// each case runs in a child process (this binary, `extra oomchild <case>`), which exits 0 only if the call RETURNED.
+fn oom_child(args: &[String]) {
+    let case: u64 = args.get(3).and_then(|s| s.parse().ok()).unwrap_or(0);
+    let phase = case % 4;
+    let call = case / 4;
+    let mut m: HashMap<u64, u64, VBuild> = HashMap::with_hasher(VBuild::default());
+    match phase {
+        0 => {}
+        1 => { for i in 0..10 { m.insert(i, i); } }
+        2 => { for i in 0..29 { m.insert(i, i); } }
+        _ => { for i in 0..20 { m.insert(i, i); } m.reserve(100); }
+    }
+    let cap0 = m.capacity();
+    // 2^27 elements of 16 bytes: a valid layout (no capacity overflow), above the harness allocator's 1 GiB limit
+    let n: usize = 1 << 27;
+    match call {
+        0 => m.reserve(n),
+        1 => {
+            struct Hinted(usize);
+            impl Iterator for Hinted {
+                type Item = (u64, u64);
+                fn next(&mut self) -> Option<(u64, u64)> { None }
+                fn size_hint(&self) -> (usize, Option<usize>) { (self.0, None) }
+            }
+            m.extend(Hinted(2 * n));
+        }
+        2 => { let w: HashMap<u64, u64, VBuild> = HashMap::with_capacity_and_hasher(n, VBuild::default()); m = w; }
+        _ => { let mut s: HashSet<u64, VBuild> = HashSet::with_hasher(VBuild::default()); for k in m.keys() { s.insert(*k); } s.reserve(n); println!("RETURNED capacity {} -> {}", cap0, s.capacity()); std::process::exit(0); }
+    }
+    println!("RETURNED capacity {} -> {}", cap0, m.capacity());
+    std::process::exit(0);
+}
+
+fn oom(rep: &mut Report, _seed: u64, _scale: u64) {
+    let exe = std::env::current_exe().expect("own path");
+    let calls = ["HashMap::reserve", "HashMap::extend (hint)", "HashMap::with_capacity_and_hasher", "HashSet::reserve"];
+    let phases = ["empty", "10 elements", "resize in flight", "everything parked"];
+    for case in 0..16u64 {
+        let out = std::process::Command::new(&exe).args(["extra", "oomchild", &case.to_string()]).output();
+        rep.evaluations += 1;
+        rep.tuples.insert(format!("case{case}"));
+        match out {
+            Ok(o) => {
+                let text = String::from_utf8_lossy(&o.stdout).to_string();
+                if o.status.success() || text.contains("RETURNED") {
+                    let what = format!("{} of 2^27 more elements on a map ({}) came back normally although the allocator refused the table: {}", calls[(case / 4) as usize], phases[(case % 4) as usize], text.trim());
+                    rep.fail("C10", what.clone(), format!("gharness extra oomchild {case}"));
+                    rep.fail("C04", what, format!("gharness extra oomchild {case}"));
+                }
+            }
+            Err(e) => {
+                rep.bump("spawn_failed", 1);
+                let _ = e;
+            }
+        }
+    }
 }
